@@ -420,6 +420,13 @@ def check_slices_hist(case, ctx):
         U.check_equal(sy, data[:, ox], 'slices:stale-origin:y', 'y slice is not the column through the current origin ' + what)
         U.check_close(ux, (np.arange(nx) - ox) * dx, 1e-12, 'slices:stale-coords', 'x slice coordinates ' + what)
         U.check_close(uy, (np.arange(ny) - oy) * dx, 1e-12, 'slices:stale-coords', 'y slice coordinates ' + what)
+        # one-sided slices start on the origin sample: coordinates from exactly 0, values from data[oy, ox], equal lengths
+        s1 = ctx.call(rd.slices, False)
+        for name, (u1, v1), wantu, wantv in (('x', s1.x, (np.arange(nx) - ox)[ox:] * dx, data[oy, ox:]), ('y', s1.y, (np.arange(ny) - oy)[oy:] * dx, data[oy:, ox])):
+            U.check_shape(v1, wantv.shape, 'slices:one-sided:%s:length' % name, 'one-sided %s slice values %s' % (name, what))
+            U.check_shape(u1, wantu.shape, 'slices:one-sided:%s:length' % name, 'one-sided %s slice coordinates %s' % (name, what))
+            U.check_equal(v1, wantv, 'slices:one-sided:%s' % name, 'one-sided %s slice does not start on the origin sample %s' % (name, what))
+            U.check_close(u1, wantu, 1e-12, 'slices:one-sided:%s:coords' % name, 'one-sided %s slice coordinates %s' % (name, what))
         asked = True
     ctx.label('moves:%d' % len(case['moves']))
 
@@ -465,6 +472,12 @@ def check_ifg_pad(case, ctx):
         U.check_close(x, np.broadcast_to(U.cvec(ox) * dx, d.shape), 1e-12, 'Interferogram.pad:x', 'x grid after pad')
         U.check_close(y, np.broadcast_to((U.cvec(oy) * dx)[:, None], d.shape), 1e-12, 'Interferogram.pad:y', 'y grid after pad')
         ctx.require(x[0, ox // 2] == 0 and y[oy // 2, 0] == 0, 'Interferogram.pad:zero', 'no exact zero at n//2 after pad')
+        # the polar grids follow (they may have been evaluated, and cached, before the pad)
+        r, tt = np.asarray(ctx.call(getattr, i, 'r')), np.asarray(ctx.call(getattr, i, 't'))
+        U.check_shape(r, d.shape, 'Interferogram.pad:r-shape', 'r after pad (coordinates touched before: %s)' % t)
+        U.check_shape(tt, d.shape, 'Interferogram.pad:t-shape', 't after pad (coordinates touched before: %s)' % t)
+        U.check_close(r, np.hypot(x, y), 1e-12, 'Interferogram.pad:r', 'r != hypot(x, y) after pad (coordinates touched before: %s)' % t)
+        U.check_close(tt, np.arctan2(y, x), 1e-12, 'Interferogram.pad:t', 't != arctan2(y, x) after pad (coordinates touched before: %s)' % t, atol=1e-12)
         # the data's origin sample moved to the origin sample of the padded array
         offy, offx = oy // 2 - ny // 2, ox // 2 - nx // 2
         U.check_equal(d[offy:offy + ny, offx:offx + nx], z, 'Interferogram.pad:placement', 'the origin sample of the data did not move to the origin sample of the padded array')
@@ -525,6 +538,9 @@ def check_ifg_crop(case, ctx):
         r = np.asarray(ctx.call(getattr, i, 'r'))
         U.check_shape(r, d.shape, 'Interferogram.recenter:r-shape')
         ctx.require(r[oy // 2, ox // 2] == 0 and int(np.argmin(r)) == (oy // 2) * ox + ox // 2, 'Interferogram.recenter:r', 'radial grid after recenter does not have its zero on the origin sample')
+        U.check_close(r, np.hypot(x, y), 1e-12, 'Interferogram.recenter:r', 'r != hypot(x, y) after crop+recenter (coordinates touched before: %s)' % t, atol=1e-12 * dx * (nx + ny))
+        tt = np.asarray(ctx.call(getattr, i, 't'))
+        U.check_close(tt, np.arctan2(y, x), 1e-12, 'Interferogram.recenter:t', 't != arctan2(y, x) after crop+recenter', atol=1e-9)
 
 
 CLAUSES = [
